@@ -15,6 +15,7 @@ import os
 import re
 import shutil
 import threading
+import time
 
 import vlib
 import xlib
@@ -146,9 +147,13 @@ def _classify(run, total, details, crashes, what, cases_path):
     return drift
 
 
+JOB_WALL = {}
+
+
 def _mc(run, name, cfg, workers, timeout, results, must_hold=True, coverage=True):
     r = vlib.tlc("OpFut", cfg, workers=workers, timeout=timeout, jvm=JVM, coverage=coverage)
     results[name] = r
+    JOB_WALL[name] = round(r.wall, 1)
     return r
 
 
@@ -238,6 +243,7 @@ def run(run, tier, replay):
         mcres = {}
         replays = {}
         sfx = "" if quick else "_thorough"
+        LIVE = ("iour",) if quick else ("iour", "poll")
         T = 900 if quick else 3000
 
         def gen_and_replay(tag, cfg, simulate=None, depth=None):
@@ -246,16 +252,19 @@ def run(run, tier, replay):
             built.wait()
             if build_err:
                 return
+            t0 = time.time()
             total, details, crashes = _replay(path)
+            JOB_WALL[tag] = {"gen": info["wall_s"], "replay": round(time.time() - t0, 1)}
             replays[tag] = (path, info, total, details, crashes)
 
         jobs = []
         with concurrent.futures.ThreadPoolExecutor(max_workers=4) as ex:
             for d in ("iour", "poll"):
                 jobs.append(ex.submit(gen_and_replay, "gen_" + d, "Gen_OpFut_%s.cfg" % d))
-            for d in ("iour", "poll"):
-                jobs.append(ex.submit(_mc, run, "mc_" + d, "MC_OpFut_%s%s.cfg" % (d, sfx), 2, T, mcres))
-            for d in ("iour", "poll"):
+            # action coverage (vacuity) is measured on the io_uring run; the polling run has the same actions
+            jobs.append(ex.submit(_mc, run, "mc_iour", "MC_OpFut_iour%s.cfg" % sfx, 2, T, mcres, True, True))
+            jobs.append(ex.submit(_mc, run, "mc_poll", "MC_OpFut_poll%s.cfg" % sfx, 2, T, mcres, True, False))
+            for d in LIVE:
                 jobs.append(ex.submit(_mc, run, "live_" + d, "MC_OpFut_live_%s%s.cfg" % (d, sfx), 2, T, mcres, True, False))
             jobs.append(ex.submit(lambda: mcres.__setitem__("ctl", vlib.tlc(
                 "OpFut", "MC_OpFut_ctl.cfg", workers=1, timeout=T, jvm=JVM, coverage=False, extra=["-continue"]))))
@@ -265,7 +274,8 @@ def run(run, tier, replay):
                 for d in ("iour", "poll"):
                     jobs.append(ex.submit(gen_and_replay, "edge_" + d, "Gen_OpFut_%s_edge.cfg" % d))
                     jobs.append(ex.submit(gen_and_replay, "vis3_" + d, "Gen_OpFut_%s_vis3.cfg" % d))
-                    jobs.append(ex.submit(gen_and_replay, "sim_" + d, "Gen_OpFut_%s_sim.cfg" % d, 1500, 9))
+                    jobs.append(ex.submit(gen_and_replay, "sim_" + d, "Gen_OpFut_%s_sim.cfg" % d, 500, 9))
+                    jobs.append(ex.submit(_mc, run, "join_" + d, "MC_OpFut_%s_join.cfg" % d, 2, T, mcres, True, False))
                 jobs.append(ex.submit(_mc, run, "fixed", "MC_OpFut_fixed.cfg", 1, T, mcres, True, False))
                 jobs.append(ex.submit(_mc, run, "live_fixed", "MC_OpFut_live_fixed.cfg", 1, T, mcres, True, False))
                 jobs.append(ex.submit(_mc, run, "mut_drop", "MC_OpFut_mut_drop.cfg", 1, T, mcres, False, False))
@@ -275,10 +285,11 @@ def run(run, tier, replay):
         if build_err:
             raise build_err[0]
         # 1. the model: safety on both drivers, liveness on the fair specification, nothing vacuous
-        for name in ["mc_iour", "mc_poll", "live_iour", "live_poll"] + ([] if quick else ["fixed", "live_fixed"]):
+        for name in ["mc_iour", "mc_poll"] + ["live_" + d for d in LIVE] + \
+                ([] if quick else ["join_iour", "join_poll", "fixed", "live_fixed"]):
             r = mcres[name]
             vlib.require_model_ok(r, "OpFut/" + name)
-            if name.startswith("mc_"):
+            if name == "mc_iour":
                 z = [a for a in ACTIONS if r.coverage.get(a, (0, 0))[1] == 0]
                 if z:
                     raise vlib.ToolError("OpFut/%s: actions never taken: %s" % (name, z))
@@ -302,6 +313,7 @@ def run(run, tier, replay):
                     if i % 1500 == 700:
                         run.sample(json.loads(line), limit=3)
         run.note("drift_steps", drift)
+        run.note("job_wall_s", dict(JOB_WALL))
         run.note("exhaustive_state_cover", True)
         if drift:
             raise vlib.ToolError("the implementation differs from the model in %d steps while the contract holds: "
